@@ -141,9 +141,13 @@ func runBubble(t *testing.T, body func()) (problem string) {
 // state) inside a bubble. `after` runs at quiescence with the interceptor removed (used for
 // API-level observation such as NodeResource); the instance is closed afterwards.
 func wexec(t *testing.T, b *world.Backend, opts world.InstanceOpts, fault *faultSpec, seed uint64,
-	call func(ctx context.Context, inst *world.Instance), after func(ctx context.Context, inst *world.Instance)) execTrace {
+	call func(ctx context.Context, inst *world.Instance), after func(ctx context.Context, inst *world.Instance), onStep ...func(label string, occ int, s world.Step)) execTrace {
 	var tr execTrace
 	rec := &recorder{counts: map[string]int{}, fault: fault}
+	if len(onStep) > 0 {
+		// called before each step takes effect, with all other steps of the instance held back
+		rec.onStep = onStep[0]
+	}
 	problem := runBubble(t, func() {
 		resetRand(seed)
 		inst, err := b.NewInstance(opts)
